@@ -19,13 +19,13 @@ TEXT = ("evdns_getaddrinfo answers numeric / NULL-node lookups without any query
         "DNS; otherwise the callback runs exactly once after the last wanted answer with the A addresses followed by the AAAA addresses allowed "
         "by the family hint, each with the service port and the socktype/protocol of the hints; the answer is cached, served again within the "
         "TTL (same addresses, requested port, family filter) and not after it.")
-NOTE = ("Finding KF-C38-cache-ttl: the merged A+AAAA answer is cached with the TTL of whichever answer arrived FIRST "
+NOTE = ("Findings: KF-C38-cache-dup (a list cached from an open-socktype lookup holds a TCP and a UDP entry per address; evdns_cache_lookup expands EACH of them again, so the cached answer has every address twice as often as the original); KF-C38-port-pair (answers from the hosts file and from the cache carry port 0 on the UDP entry of a TCP+UDP pair); KF-C38-cache-ttl: the merged A+AAAA answer is cached with the TTL of whichever answer arrived FIRST "
         "(res_ttl = data->pending_result_ttl), not with the smaller one, so addresses are served from the cache after their TTL.")
 ASSUMPTIONS = ["transaction ids concrete (see C34)", "sends succeed", "allocation does not fail",
                "evutil_getaddrinfo_common_ behaves as decided in C38_numeric.c (returns an answer, an error, or EVUTIL_EAI_NEED_RESOLVE with the port)"]
 DESIGN_REF = "DESIGN.md §5 C38"
 
-US = ["nameserver_pick.3:4", "transaction_id_pick.2:3", "vpe_strlen.0:26", "vpe_strncmp.0:26", "vpd_calloc.0:15", "evdns_base_set_max_requests_inflight.4:15",
+US = ["vpe_timeout_set.0:10", "vpe_timeout_of.0:10", "nameserver_pick.3:4", "transaction_id_pick.2:3", "vpe_strlen.0:26", "vpe_strncmp.0:26", "vpd_calloc.0:15", "evdns_base_set_max_requests_inflight.4:15",
       "vpd_memcpy.0:130", "vpd_memcpy_var.0:30", "vpd_memset.0:130", "vpe_memcpy.0:30", "vpd_check_write.0:10", "vpe_strcasecmp.0:3", "evdns_tree_SPLAY.4:3", "vpd_strdup.0:3", "vpd_strdup.1:4", "evdns_cache_lookup.1:6", "evutil_addrinfo_append_.0:9", "evutil_freeaddrinfo.0:10", "evutil_dup_addrinfo_.0:10"]
 
 def ob(name, entry, desc, fam=0, socktype=1, extra=(), **kw):
@@ -46,25 +46,44 @@ def merge(fam, n4, n6, first, socktype=1, nocache=0, entry="harness_merge", kf=N
     d = ob(n, entry, what % (sa(n4), sa(n6), "A" if first == 4 else "AAAA"), fam=fam, socktype=socktype,
            extra=["C38_N4=%d" % n4, "C38_N6=%d" % n6, "C38_FIRST=%d" % first, "C38_NOCACHE=%d" % nocache], **kw)
     if entry == "harness_merge": d["instrument"] = [["--replace-calls", "evdns_cache_write:c38_cache_write_rec"]]
-    if kf: d.update(expect_fail=["C38: cache entry outlives the TTL of an answer it contains"], known_finding="KF-C38-cache-ttl", name=n + "_kf")
+    if kf == "dup": d.update(expect_fail=["C38: port of an answer is not the service port", "C38: address family of an answer differs", "C38: ai_addrlen does not fit",
+                                          "C38: IPv6 address of an answer differs", "C38: IPv4 address of an answer differs", "C38: answer list longer than the union",
+                                          "C38: open hints must give a TCP and a UDP entry per address", "harness: answer list longer than the recorder"],
+                             known_finding="KF-C38-cache-dup", name=n + "_kf")
+    elif kf: d.update(expect_fail=["C38: cache entry outlives the TTL of an answer it contains"], known_finding="KF-C38-cache-ttl", name=n + "_kf")
+    return d
+
+def numeric(node, kf=None):
+    what = {0: "NULL node", 1: "numeric IPv4 node 10.0.0.1", 2: "numeric IPv6 node ::1", 3: "host name"}[node]
+    d = dict(name="numeric_node%d%s" % (node, "_kf_servwrap" if kf else ""), harness="C38_numeric.c", entry="harness_numeric",
+             desc="evutil_getaddrinfo_common_ (real evutil.c) on a %s, any service text <= 3 bytes / any (value, end) strtol can report, any family/socktype/protocol/"
+                  "PASSIVE/NUMERICHOST/NUMERICSERV hints, getservbyname unknown or any port: result, addresses, port, socktype/protocol pairs == reference%s"
+                  % (what, " (on exactly the KF-C38-servname-wrap inputs)" if kf else " (excluding KF-C38-servname-wrap)"),
+             defines=["C38_NODE=%d" % node, "KF_ONLY_SERV_WRAP" if kf else "KF_EXCLUDE_SERV_WRAP"], unwind=18,
+             unwindset=["vpf_vsscanf.0:6"], cbmc=["--memory-leak-check"], timeout=900, mem_gb=4)
+    if kf: d.update(expect_fail=["C38: a service that is neither a port 0..65535 nor a known name must be refused", "C38: host name: resolver needed, port handed on"], known_finding="KF-C38-servname-wrap")
     return d
 
 def obligations(tier):
     full = tier != "quick"
     obs = []
+    for node in (0, 1, 2, 3): obs.append(numeric(node))
+    obs.append(numeric(3, kf=True))
     for mode, nul, what in ((0, 0, "numeric host answered by the fast path"), (0, 1, "NULL node answered by the fast path"), (1, 0, "fast path reports an error (any code)"),
                             (2, 0, "EVUTIL_AI_NUMERICHOST: system resolver answers")):
         obs.append(ob("fastpath_m%d_null%d" % (mode, nul), "harness_fastpath", what + ": callback at once, exactly once, with exactly that answer; no request, no query",
                       extra=["C38_FP_MODE=%d" % mode] + (["C38_NULL_NODE"] if nul else [])))
     for fam in (0, 4, 6):
         obs.append(ob("hosts_f%d" % fam, "harness_hosts", "name with hosts entries (2 IPv4, 1 IPv6, mixed case): answered from them in file order, filtered by family, no query", fam=fam))
-    obs.append(ob("hosts_f0_open", "harness_hosts", "the same with open socktype: TCP+UDP pair per entry", fam=0, socktype=0))
+    obs.append(ob("hosts_f0_open_kf", "harness_hosts", "the same with open socktype: TCP+UDP pair per entry, both with the service port [KF-C38-port-pair]", fam=0, socktype=0,
+                  expect_fail=["C38: port of an answer is not the service port"], known_finding="KF-C38-port-pair"))
     obs.append(ob("hosts_absent", "harness_hosts", "name without hosts entry goes to DNS", fam=0, extra=["C38_NAME=\"c\"", "C38_NAME_ABSENT"]))
     # merge: single-source shapes (no TTL merge) and two-source shapes with the cache check excluded by NO_CACHE, plus the finding
     obs.append(merge(4, 2, 0, 4)); obs.append(merge(6, 0, 2, 6)); obs.append(merge(0, 2, -1, 4)); obs.append(merge(0, 0, 1, 6)); obs.append(merge(0, -1, -1, 4))
     obs.append(merge(0, 1, 1, 4, nocache=1)); obs.append(merge(0, 2, 2, 6, nocache=1)); obs.append(merge(0, 1, 1, 4, socktype=0, nocache=1))
     obs.append(merge(0, 1, 1, 4, kf=True)); obs.append(merge(0, 1, 1, 6, kf=True))
     obs.append(merge(4, 1, 0, 4, entry="harness_cache")); obs.append(merge(0, 1, 1, 4, entry="harness_cache")); obs.append(merge(6, 2, 0, 4, entry="harness_cache"))
+    obs.append(merge(0, 1, 1, 4, socktype=0, entry="harness_cache", kf="dup"))
     if full:
         obs.append(merge(0, 2, 1, 4, nocache=1)); obs.append(merge(0, 1, 2, 6, socktype=0, nocache=1)); obs.append(merge(0, -1, 2, 4)); obs.append(merge(0, 0, 0, 6))
         obs.append(merge(6, 0, 1, 6, entry="harness_cache")); obs.append(merge(0, 2, 2, 4, entry="harness_cache")); obs.append(merge(4, 2, 0, 4, socktype=0))
